@@ -100,6 +100,44 @@ CHECKS = {
              "the real readers, and random real files are re-laid-out (wrap widths up to 20 000, physical lines longer "
              "than 4096 bytes) and read back; FormatsTrace.tla demands exactly the generating records.",
         note=COMMON, ref="DESIGN.md §6 C01-C04"),
+    "C16": dict(
+        technique="TLA+ piler state machine (operational merge vs declarative connected components) checked by TLC over "
+                  "all insertion orders; TLC-emitted Add sequences replayed on the real Piler; random instances judged by TLC",
+        text="Piler.tla models Piler.Add/merge operationally (interval hits with slack 0, absorb, delete, reinsert, seen "
+             "pairs in both orientations) and the components of overlap-or-abut declaratively; TLC checks in every "
+             "reachable state that piles are apart, each pile is the hull and union of its members, piles = components "
+             "(order independence), every feature in exactly one pile, duplicates rejected, and refutes four wrong "
+             "variants. Every Add sequence of the bounded model and random walks in every order, plus random instances "
+             "of up to 40 pairs, run on a real pals.Piler; PilerTrace.tla recomputes the components and judges every "
+             "Piles call (filters included), Location() and Mate().",
+        note="Trusted: driver's reading of Pile/Feature fields by pointer identity. Not judged: Add after Piles, inverted "
+             "features, slack other than 0.",
+        ref="DESIGN.md §6 C16"),
+    "C17": dict(
+        technique="TLA+ transcription of alphabet/pairing/complementor construction; TLC checks all laws over 256 letters "
+                  "for the 7 built-ins and all small definitions; emitted cases and random definitions through the real "
+                  "constructors judged by TLC",
+        text="Alphabet.tla builds valid/index tables and pairing tables the way alphabet.go does and states the laws "
+             "(validity = membership, IndexOf/Letter inverse, AllValid, case-preserving involution, method = table, "
+             "index(comp(l)) = 3 - index(l), constructor rejections) as invariants over the seven built-in definitions "
+             "and every definition of a small ASCII sample; four wrong variants are refuted. The driver dumps every "
+             "accessor of the built-ins over all 256 letters and runs TLC-emitted and random (also non-ASCII, "
+             "non-bijective) definitions through the constructors; AlphabetTrace.tla recomputes everything.",
+        note="Trusted: the transcription of the seven definition strings; error classes compared only as accept/reject.",
+        ref="DESIGN.md §6 C17"),
+    "C18": dict(
+        technique="TLA+ integer specification of the encodings and, via a TLC-certified mantissa table for 10^(r/20), of "
+                  "the probabilities and Phred/Solexa conversions; the real functions dumped over their whole 8-bit "
+                  "domains and judged by TLC",
+        text="Quality.tla specifies Encode/Decode per encoding and, in 32-bit integer arithmetic from a 20-entry table "
+             "certified by TLC through the functional equation of 10^x, the error probabilities to 4 significant digits "
+             "and the correctly rounded conversions (near ties are excluded, counted). TLC checks monotonicity, "
+             "score-probability-score identity, mutual inverses from Q=10, and refutes the as-found table and encoder. "
+             "Every function of alphabet/letters.go and seq/quality is dumped for all 256 scores, bytes and 7 encodings "
+             "plus thousands of sampled probabilities; QualityTrace.tla judges each value.",
+        note="Trusted: Go's float64 to (mantissa, exponent) rendering in the driver. Accuracy beyond 4 significant digits "
+             "is not decided; a score of one kind under an encoding of the other kind is drift only.",
+        ref="DESIGN.md §6 C18"),
 }
 
 NOT_YET = {}
